@@ -18,11 +18,12 @@ import (
 
 type C = vh.Ctx
 
+// Classifier signatures of the known findings that remain on the current tree.  (DESIGN finding 8,
+// ".s" accepted as a Duration, and the ',' part of finding 9 are repaired in /repo 5d68604 and 5508893:
+// they carry no signature any more, a recurrence is a VIOLATION.)
 const (
-	sigDurNoDigits = "json-duration-no-digits"
-	sigTsComma     = "json-timestamp-comma-fraction"
-	sigTsOffset    = "json-timestamp-offset-range"
-	sigTsHour1     = "json-timestamp-one-digit-hour"
+	sigTsOffset = "json-timestamp-offset-range"
+	sigTsHour1  = "json-timestamp-one-digit-hour"
 )
 
 func main() { vh.Main("wktjson", run) }
